@@ -4,7 +4,6 @@ CLAIMS = {}
 NOT_APPLICABLE = {
     'C29': 'Incremental LS analysis vs fresh analysis quantifies over edit histories and type-checker state; no shape-visible necessary condition exists (ASTDiff yielding one edit is neither necessary nor sufficient), so static analysis cannot address it here.',
     'C30': 'LS rename preserving meaning needs completeness of the reference index and behavioural equality of the renamed program over all programs: runtime/semantic facts, not decidable from the shape of the code.',
-    'C34': 'Inferred types describing run-time values is soundness of dependent type inference (substitution, unification, evaluation) over all programs; no structural clause whose breach necessarily breaks it could be identified.',
 }
 
 
@@ -130,9 +129,9 @@ claim('C32', 'table rule over the resolved arms of Predicate::invert / and / or 
       'Nested predicate trees, Or-sets and absorption are not decided.',
       'DESIGN.md §3 C32')
 
-claim('C17', 'table agreement across crates: characters produced by the lexer escape arms vs the replace chain of PyScriptGenerator::escape_str',
+claim('C17', 'table agreement across crates: characters produced by the lexer escape arms vs the replace chain of PyScriptGenerator::escape_str; typestate rule on the fresh-name counter',
       'Decides the clause "string literals with arbitrary contents": every unescaped character that cannot stand raw in a Python literal must be escaped by the transpiler '
-      '(2 known findings: `"` and `\\`).',
+      '(2 known findings: `"` and `\\`); and that generated helper names are unique: the fresh-name counter is incremented before anything that can take the same name template.',
       'Behavioural equivalence of the transpiled script and the compiled bytecode is not decided.',
       'DESIGN.md §3 C17')
 claim('C18', 'flow rule inside JsonGenerator: value / literal text must pass a JSON encoder before reaching the output',
@@ -140,9 +139,17 @@ claim('C18', 'flow rule inside JsonGenerator: value / literal text must pass a J
       'That the emitted values equal the constant initializers is not decided.',
       'DESIGN.md §3 C18')
 
-claim('C33', 'dominance rule over the structured HIR of Context::get_match_call_t',
-      'Decides that a `match` call is typed successfully only after sub_unify(scrutinee type, union of all arm pattern types) succeeded, its failure producing match_error.',
-      'Soundness of sub_unify / union and the run-time arm tests generated by the code generator are not decided.',
+claim('C34', 'table agreement: dependent List / List! signatures (typed HIR) vs symbolic-length interpretation of the run-time list operations (python ast + frozen built-in list semantics)',
+      'Decides only the length clause ("length-indexed list types", "an index the checker accepts as in range for a list type is in range at run time") and only at the declarations: '
+      'every List / List! operation whose declared type computes a length (N + M, N + 1, N * M, N - 1, 0) is bound to a run-time implementation that produces that length; '
+      'the index type of __getitem__ ends at N - 1; a list literal is given the number of its lowered elements as length.',
+      'Soundness of substitution / unification / evaluation of these signatures during inference, and the singleton / enum / interval clauses of the property, are not decided '
+      '(the arithmetic tables behind the latter are decided under C02 / C04 / C26).',
+      'DESIGN.md §8.2 C34')
+claim('C33', 'dominance rule over the structured HIR of Context::get_match_call_t; table agreement of the four interval operators (typed HIR + python ast)',
+      'Decides that a `match` call is typed successfully only after sub_unify(scrutinee type, union of all arm pattern types) succeeded, its failure producing match_error; and that the '
+      'refinement type built for each interval operator excludes exactly the ends excluded by the run-time Range class emitted for it.',
+      'Soundness of sub_unify / union for other pattern types and the other run-time arm tests generated by the code generator are not decided.',
       'DESIGN.md §3 C33')
 claim('C05', 'dominance rules over the pipeline functions (lower, effect check, ownership check, HIRBuilder::check, Compiler::compile*)',
       'Decides the pipeline clause "is rejected ... and is not executed": no stage returns Ok with accumulated errors, no collected error is dropped on the way, stages are chained '
@@ -161,10 +168,11 @@ claim('C09', 'SCC analysis of the resolved call graph of erg_parser for depth gu
       'Panic-freedom of the enum_unwrap!/unwrap sites on arbitrary token sequences and termination are not decided.',
       'DESIGN.md §3 C09')
 
-claim('C10', 'effect reachability over the resolved call graph from the parser entry points; ADT rule on derived equality of the syntax tree',
+claim('C10', 'effect reachability over the resolved call graph from the parser entry points; ADT rule on derived equality of the syntax tree; filter-dominance and comment-discrimination rules on the lexer',
       'Decides (R1) determinism as absence of clocks / RNG / randomly seeded hashers / environment reads / mutable statics in everything reachable from the lexer, parser and '
-      'desugarer, and (R2) that the AST equality through which layout-insensitivity is observed ignores positions (5 known findings: derived PartialEq over Location fields).',
-      'That the layout-preserving rewrites of the property yield the same tree is behaviour of the lexer/parser and is not decided.',
+      'desugarer, (R2) that the AST equality through which layout-insensitivity is observed ignores positions (5 known findings: derived PartialEq over Location fields), '
+      '(R3) that every Indent / Dedent decision of the lexer lies behind the filter for lines holding only spaces or a line comment, and (R4) that every decision on `#` separates `#[`.',
+      'That line continuations and redundant parentheses yield the same tree is behaviour of the parser and is not decided.',
       'DESIGN.md §3 C10')
 
 claim('C19', 'dominance rule in lower(); type-based scan for iteration over RandomState collections; scope rule for named lock guards at scheduling calls',
